@@ -146,6 +146,8 @@ def declare_answers(E):
                    "end_of_file_is_not_an_error": "implies(t == 101 and ghost('status_is_eof') and ghost('is_read_answer'),"
                                                   " opaque_id(self._saved_exception) == old(opaque_id(self._saved_exception)))",
                    "a_refusal_is_saved": "implies(t == 101 and ghost('refused'), self._saved_exception is not None)",
+                   "a_refusal_saved_earlier_is_not_lost":
+                       "implies(old(self._saved_exception) is not None, self._saved_exception is not None)",
                    "a_write_answered_with_any_error_status_is_a_refusal":
                        "implies(t == 101 and ghost('status_is_eof') and not ghost('is_read_answer'), self._saved_exception is not None)",
                },
